@@ -3,12 +3,21 @@
 // extract: go/ast facts about the code the model follows: the COLUMN_KEY rule of
 //          sql/information_schema/columns_table.go (getIndexKeyInfo: key strings, composite-unique
 //          special case; getRowsFromTable: promotion), the nil-privilege-set early return of
-//          triggersRowIter / viewsRowIter, the index order of memory.Table.GetIndexes.
+//          triggersRowIter / viewsRowIter, the index order of memory.Table.GetIndexes; where the
+//          PRIMARY KEY clause of SHOW CREATE TABLE takes its column list from (the key ordinals, in
+//          key order); every assignment to the three loop-carried variables of routinesRowIter with
+//          the construct it sits in (re-initialised inside the loop over the procedures).
 // run:     DDL histories over an empty database (one history = one case), observed at the end through
 //          information_schema (TABLES, COLUMNS, STATISTICS, TABLE_CONSTRAINTS, KEY_COLUMN_USAGE,
-//          TRIGGERS, VIEWS) and SHOW (TABLES, FULL TABLES, COLUMNS, INDEX, TRIGGERS); model-free
-//          oracle: object names = live catalog walk, SHOW = information_schema, every column a key
-//          view names exists.
+//          TRIGGERS, VIEWS, ROUTINES) and SHOW (TABLES, FULL TABLES, COLUMNS, INDEX, TRIGGERS,
+//          PROCEDURE STATUS, CREATE TABLE: column order and key clauses); three history streams
+//          (mixed, key-centred, routine-centred); model-free oracles: object names = live catalog
+//          walk, SHOW = information_schema, every column a key view names exists, the column list of
+//          every key is the same *in the same order* in SHOW CREATE TABLE / STATISTICS / SHOW INDEX /
+//          KEY_COLUMN_USAGE / the table's own GetIndexes + PkOrdinals, replaying the printed CREATE
+//          TABLE statements gives the same keys; `objs` cases (oracle only): the rows describing one
+//          object (procedure, event, check, foreign key, trigger, view) in a catalog with several
+//          objects equal the rows it has when it is the only such object.
 //
 // Envelope (defects of other properties are kept out; see lean/Gms/Model/Catalog.lean):
 // RENAME TABLE (a trigger keeps the old table name; afterwards SHOW TRIGGERS and DROP TABLE of any
@@ -153,7 +162,116 @@ func extract(a hx.ExtractArgs) error {
 		return true
 	})
 	lf.DefString("indexOrder", order)
+
+	// SHOW CREATE TABLE: where the column list of the PRIMARY KEY clause comes from
+	si, err := hx.ParseSrc(a.Repo, "sql/rowexec/show_iters.go")
+	if err != nil {
+		return err
+	}
+	fd, err = si.Func("showCreateTablesIter", "produceCreateTableStatement")
+	if err != nil {
+		return err
+	}
+	pkSrc := assignSites(si, fd.Body, map[string]bool{"pkOrdinals": true, "primaryKeyCols": true})
+	if len(pkSrc) == 0 {
+		return fmt.Errorf("produceCreateTableStatement: no assignment to pkOrdinals / primaryKeyCols found")
+	}
+	lf.DefStringList("showCreatePkSource", pkSrc)
+
+	// ROUTINES: the loop-carried variables and where they are assigned
+	rt, err := hx.ParseSrc(a.Repo, "sql/information_schema/routines_table.go")
+	if err != nil {
+		return err
+	}
+	fd, err = rt.Func("", "routinesRowIter")
+	if err != nil {
+		return err
+	}
+	rtSrc := assignSites(rt, fd.Body, map[string]bool{"securityType": true, "isDeterministic": true, "sqlDataAccess": true})
+	if len(rtSrc) == 0 {
+		return fmt.Errorf("routinesRowIter: no assignment to securityType / isDeterministic / sqlDataAccess found")
+	}
+	lf.DefStringList("routinesAssignments", rtSrc)
+	emptySet := false
+	ast.Inspect(fd.Body, func(n ast.Node) bool {
+		if is, ok := n.(*ast.IfStmt); ok && strings.Join(strings.Fields(rt.Text(is.Cond)), " ") == "privSet == nil" && len(is.Body.List) == 1 {
+			if strings.Join(strings.Fields(rt.Text(is.Body.List[0])), " ") == "privSet = mysql_db.NewPrivilegeSet()" {
+				emptySet = true
+			}
+		}
+		return true
+	})
+	lf.DefBool("routinesNilPrivSetIsEmptySet", emptySet)
 	return lf.Write(a.Out)
+}
+
+// assignSites lists every assignment / initialised declaration of one of the named variables in
+// body as "<innermost enclosing construct> => <statement>", in source order. Constructs: top,
+// if <cond>, else, range <expr>, for, case <exprs>.
+func assignSites(src *hx.Src, body *ast.BlockStmt, names map[string]bool) []string {
+	var out []string
+	norm := func(n ast.Node) string { return strings.Join(strings.Fields(src.Text(n)), " ") }
+	var stmts func(list []ast.Stmt, ctx string)
+	var stmt func(st ast.Stmt, ctx string)
+	stmts = func(list []ast.Stmt, ctx string) {
+		for _, st := range list {
+			stmt(st, ctx)
+		}
+	}
+	stmt = func(st ast.Stmt, ctx string) {
+		switch x := st.(type) {
+		case *ast.AssignStmt:
+			for _, l := range x.Lhs {
+				if id, ok := l.(*ast.Ident); ok && names[id.Name] {
+					out = append(out, ctx+" => "+norm(x))
+					break
+				}
+			}
+		case *ast.DeclStmt:
+			if gd, ok := x.Decl.(*ast.GenDecl); ok {
+				for _, sp := range gd.Specs {
+					if vs, ok := sp.(*ast.ValueSpec); ok && len(vs.Values) > 0 {
+						for i, id := range vs.Names {
+							if names[id.Name] && i < len(vs.Values) {
+								out = append(out, ctx+" => var "+id.Name+" = "+norm(vs.Values[i]))
+							}
+						}
+					}
+				}
+			}
+		case *ast.BlockStmt:
+			stmts(x.List, ctx)
+		case *ast.IfStmt:
+			if x.Init != nil {
+				stmt(x.Init, ctx)
+			}
+			stmts(x.Body.List, "if "+norm(x.Cond))
+			switch e := x.Else.(type) {
+			case *ast.IfStmt:
+				stmt(e, ctx)
+			case *ast.BlockStmt:
+				stmts(e.List, "else")
+			}
+		case *ast.RangeStmt:
+			stmts(x.Body.List, "range "+norm(x.X))
+		case *ast.ForStmt:
+			stmts(x.Body.List, "for")
+		case *ast.SwitchStmt:
+			for _, c := range x.Body.List {
+				if cc, ok := c.(*ast.CaseClause); ok {
+					var es []string
+					for _, e := range cc.List {
+						es = append(es, norm(e))
+					}
+					stmts(cc.Body, "case "+strings.Join(es, ","))
+				}
+			}
+		case *ast.LabeledStmt:
+			stmt(x.Stmt, ctx)
+		}
+	}
+	stmts(body.List, "top")
+	return out
 }
 
 // ---------------------------------------------------------------------------------------------
